@@ -205,12 +205,15 @@ def generate(rng, tier):
             if st == "E":
                 decls_for_fault.append((decl_file, name, target))
             other = "fn  nothing( ){ }"
+            if rng.chance(20):
+                # something the parser recovers from under the default edition, in an arm the compiler never looks into
+                other = "pub async fn in_arm() {}\n        " + other
             if budget[0] > 0 and names and rng.chance(60):
                 budget[0] -= 1
                 n2 = names.pop(0)
                 t2, c2 = place(childdir, n2)
                 gen_file(t2, c2, depth + 1, st)
-                other = "mod %s;" % n2
+                other = other.replace("fn  nothing( ){ }", "mod %s;" % n2)
             nested = ""
             if budget[0] > 0 and names and rng.chance(25):
                 # a cfg_if! directly inside the arm of another one: its modules are modules of this crate too
